@@ -268,6 +268,7 @@ Theorem render_rules (o : opts) (sl : sls) :
   /\ (forall b, o_kbg o = false -> render1 o sl (KGroup b) = render o sl b)
   /\ (forall b, render1 o sl (KTransparent b) = render o sl b)
   /\ (forall b, render1 o sl (KEnvBody b) = render o sl b)
+  /\ (forall pre post b, render1 o sl (KEnvWrap pre post b) = pre ++ render o sl b ++ post)
   (* symbols and specials become their replacement *)
   /\ (forall r p, render1 o sl (KSymbol r p) = r) /\ (forall r, render1 o sl (KSpecials r) = r)
   (* inline math is inlined, display math is an indented block, under the in-equations policy *)
